@@ -93,7 +93,16 @@ class Facts:
         return out
 
     def undone(self):
-        return [n for n, f in self.handed_out().items() if f["done"] is None]
+        und = [n for n, f in self.handed_out().items() if f["done"] is None]
+        pe = self.program_end
+        if pe is not None and und:
+            # the driver's own record at the end of the program (Future.done() of every future it holds): a future that was
+            # done there is resolved even if the record written by its done-callback is missing (the callback can be cut by
+            # interpreter exit when it runs in a daemon thread that the injector is delaying)
+            still = set(pe.get("undone") or [])
+            known_at_end = {n for n, f in self.handed_out().items() if f["submit"] and f["submit"].get("t", 0) <= pe["t"]}
+            und = [n for n in und if n in still or n not in known_at_end]
+        return und
 
     def workers(self):
         return {pid: p for pid, p in self.procs.items() if p.get("role") == "worker"}
